@@ -332,7 +332,26 @@ func (p *Prov) of(v ssa.Value, depth int, seen map[ssa.Value]bool) string {
 		return p.of(v.X, depth, seen) + "[" + lo + ":" + hi + "]"
 	case *ssa.Alloc:
 		// address of a composite literal / local: describe by the stores into its fields
-		return "new(" + types.TypeString(v.Type().Underlying().(*types.Pointer).Elem(), shortQual) + ")"
+		tn := types.TypeString(v.Type().Underlying().(*types.Pointer).Elem(), shortQual)
+		if st, ok := v.Type().Underlying().(*types.Pointer).Elem().Underlying().(*types.Struct); ok && v.Referrers() != nil && depth < p.maxDepth {
+			var fs []string
+			for _, r := range *v.Referrers() {
+				fa, ok := r.(*ssa.FieldAddr)
+				if !ok || fa.Referrers() == nil || st.Field(fa.Field).Embedded() {
+					continue
+				}
+				for _, rr := range *fa.Referrers() {
+					if s, ok := rr.(*ssa.Store); ok && s.Addr == fa {
+						fs = append(fs, st.Field(fa.Field).Name()+":"+p.of(s.Val, depth+1, seen))
+					}
+				}
+			}
+			if len(fs) > 0 {
+				sort.Strings(fs)
+				return "&" + tn + "{" + strings.Join(fs, ",") + "}"
+			}
+		}
+		return "new(" + tn + ")"
 	case *ssa.Global:
 		return "global:" + v.Name()
 	case *ssa.Function:
